@@ -564,6 +564,24 @@ func (c *Cluster) AddTemplate(id string, t *corev1.PodTemplateSpec) {
 
 // StdTemplate builds the standard template of identity id: selects nodes labelled fit-<id>=yes.
 func StdTemplate(id string) *corev1.PodTemplateSpec {
+	if id == "C" {
+		// template C expresses its node requirement as a required node affinity with two OR-ed terms (instead of a node
+		// selector) and tolerates a taint nobody sets: the affinity paths of the fitness check and of the pod pinning
+		// (node name added to EVERY term) are exercised wherever C is used
+		req := corev1.NodeSelectorRequirement{Key: FitLabelPrefix + id, Operator: corev1.NodeSelectorOpIn, Values: []string{"yes"}}
+		return &corev1.PodTemplateSpec{
+			ObjectMeta: metav1.ObjectMeta{Labels: map[string]string{"app": "agent"}},
+			Spec: corev1.PodSpec{
+				Affinity: &corev1.Affinity{NodeAffinity: &corev1.NodeAffinity{RequiredDuringSchedulingIgnoredDuringExecution: &corev1.NodeSelector{
+					NodeSelectorTerms: []corev1.NodeSelectorTerm{
+						{MatchExpressions: []corev1.NodeSelectorRequirement{req}},
+						{MatchExpressions: []corev1.NodeSelectorRequirement{req, {Key: FitLabelPrefix + id, Operator: corev1.NodeSelectorOpExists}}},
+					}}}},
+				Tolerations: []corev1.Toleration{{Key: "verif.local/other", Operator: corev1.TolerationOpExists, Effect: corev1.TaintEffectNoSchedule}},
+				Containers:  []corev1.Container{{Name: MainContainer, Image: "img:" + id}, {Name: SideContainer, Image: "side:" + id}},
+			},
+		}
+	}
 	return &corev1.PodTemplateSpec{
 		ObjectMeta: metav1.ObjectMeta{Labels: map[string]string{"app": "agent"}},
 		Spec: corev1.PodSpec{
